@@ -280,16 +280,34 @@ func goSelectOne(a []string) string {
 	return "ok"
 }
 
+// genC13 interleaves the (timing-sensitive, slower) wait-protocol lines with the grid lines so that the
+// orchestrator's contiguous chunks carry equal shares of them.
 func genC13(g *h.G) {
-	genSelect(g)
-	genWait(g)
+	var q []func()
+	genWait(g, func(op string, args ...string) {
+		a := append([]string{}, args...)
+		q = append(q, func() { g.Emit(op, a...) })
+	})
+	n := 0
+	genSelect(g, func() {
+		n++
+		if n%20 == 0 && len(q) > 0 {
+			q[0]()
+			q = q[1:]
+		}
+	})
+	for _, f := range q {
+		f()
+	}
 }
 
-func genSelect(g *h.G) {
+func genSelect(g *h.G, tick func()) {
 	strategies := []string{pool.BestPingStrategy, pool.FirstWorkingConnection}
 	emitBoth := func(args ...string) {
 		g.Emit("select.batch", args...)
+		tick()
 		g.Emit("go.select.rule", args...)
+		tick()
 	}
 	// the exhaustive grid: 1..4 members x 36 codes each x 2 strategies x previous choice (none or any member)
 	for n := 1; n <= 4; n++ {
